@@ -12,18 +12,53 @@ from .core import SymInt, SymBool, EngineError, ite, truth
 from .seq import SymSeq, mk_seq, items_of, sym_index, hex_items, _byte, SymDict, SymSet, is_symkey, deep_eq
 
 
+class _NullSuper:
+    """what super(str, self) is for a symbolic instance of a str/bytes subclass: nothing to initialise"""
+
+    def __getattr__(self, name):
+        return lambda *a, **k: None
+
+
+def rt_super(t, obj):
+    if isinstance(obj, SymSeq):
+        return _NullSuper()
+    if isinstance(t, _SubclassProxy):
+        t = t.real
+    else:
+        t = getattr(t, "_symx_real", t)
+    return super(t, obj)
+
+
 class _SubclassProxy:
-    """stands for `class X(bytes)` declared in an instrumented module"""
+    """stands for `class X(bytes)` / `class X(str)` declared in an instrumented module"""
 
     def __init__(self, real):
         self.real = real
         self.__name__ = real.__name__
+        self.sym_cls = None
+
+    def _sym(self, x):
+        if self.sym_cls is None:
+            ns = {k: v for k, v in self.real.__dict__.items()
+                  if k not in ("__new__", "__dict__", "__weakref__", "__doc__", "__module__", "__init__")}
+            self.sym_cls = type(self.real.__name__ + "_sym", (SymSeq,), ns)
+        if isinstance(x, self.sym_cls):
+            return x
+        obj = SymSeq.__new__(self.sym_cls)
+        SymSeq.__init__(obj, x.kind, list(x.items), self)
+        init = self.real.__dict__.get("__init__")
+        if init is not None:
+            init(obj, x)
+        return obj
 
     def __call__(self, x=b"", *a):
         if isinstance(x, SymSeq):
-            if x.concrete() and x.kind == "bytes":
+            if x.concrete() and x.kind in ("bytes", "str"):
                 return self.real(x.to_concrete())
-            return SymSeq("bytes", list(x.items), tag=self)
+            custom = [k for k in self.real.__dict__ if k not in ("__new__", "__dict__", "__weakref__", "__doc__", "__module__", "__str__", "__repr__")]
+            if custom:
+                return self._sym(x)
+            return SymSeq(x.kind, list(x.items), tag=self)
         return self.real(x, *a)
 
     def __instancecheck__(self, x):
@@ -184,6 +219,10 @@ def _int_from_bytes(b, byteorder="big", *, signed=False):
 
 class int_(metaclass=_Meta):
     _symx_root = True
+
+    def __new__(cls, *a, **k):
+        return _b.int.__new__(cls, *a, **k)
+
     _symx_real = _b.int
     _symx_check = staticmethod(lambda x: isinstance(x, (_b.int, SymInt, SymBool)))
     _symx_call = staticmethod(_int_call)
@@ -240,6 +279,10 @@ def _fromhex(kind):
 
 class bytes_(metaclass=_Meta):
     _symx_root = True
+
+    def __new__(cls, *a, **k):
+        return _b.bytes.__new__(cls, *a, **k)
+
     _symx_real = _b.bytes
     _symx_check = staticmethod(lambda x: isinstance(x, _b.bytes) or (isinstance(x, SymSeq) and x.kind == "bytes"))
     _symx_call = staticmethod(_seq_ctor("bytes"))
@@ -250,6 +293,10 @@ class bytes_(metaclass=_Meta):
 
 class bytearray_(metaclass=_Meta):
     _symx_root = True
+
+    def __new__(cls, *a, **k):
+        return _b.bytearray.__new__(cls, *a, **k)
+
     _symx_real = _b.bytearray
     _symx_check = staticmethod(lambda x: isinstance(x, _b.bytearray) or (isinstance(x, SymSeq) and x.kind == "bytearray"))
     _symx_call = staticmethod(_seq_ctor("bytearray"))
@@ -318,6 +365,10 @@ def dec_str(x, max_digits=80):
 
 class str_(metaclass=_Meta):
     _symx_root = True
+
+    def __new__(cls, *a, **k):
+        return _b.str.__new__(cls, *a, **k)
+
     _symx_real = _b.str
     _symx_check = staticmethod(lambda x: isinstance(x, _b.str) or (isinstance(x, SymSeq) and x.kind == "str"))
     _symx_call = staticmethod(_str_call)
@@ -741,6 +792,6 @@ def make_builtins(import_hook):
         hex=hex_, sum=sum_, repr=repr_, memoryview=memoryview_,
         __import__=import_hook,
         __symx_sub__=rt_subscript, __symx_ite__=rt_ite, __symx_mod__=rt_mod, __symx_join__=join_,
-        __symx_msg__=rt_msg, __symx_slice__=slice, __symx_dict__=SymDict, __symx_in__=rt_in, __symx_get__=rt_get, __symx_format__=rt_format,
+        __symx_msg__=rt_msg, __symx_super__=rt_super, __symx_slice__=slice, __symx_dict__=SymDict, __symx_in__=rt_in, __symx_get__=rt_get, __symx_format__=rt_format,
     )
     return d
